@@ -347,7 +347,25 @@ func (g *c17Gen) directives(st *c17Style, d int) string {
 			if j == 0 {
 				sep = ":"
 			}
-			s += st.pad() + sep + st.osp() + st.src(g.node(d))
+			arg := g.node(d)
+			if g.r.Chance(35) { // outermost operator ternary / elvis / low-precedence binary
+				switch g.r.Intn(3) {
+				case 0:
+					arg = &c17Node{K: "tern", Kids: []*c17Node{g.node(d), g.node(d), g.node(d)}}
+					g.feat("directive-arg:tern")
+				case 1:
+					arg = &c17Node{K: "bin", S: "?:", Kids: []*c17Node{g.node(d), g.node(d)}}
+					g.feat("directive-arg:elvis")
+				default:
+					arg = &c17Node{K: "bin", S: g.pick([]string{"or", "and", "==", "+"}), Kids: []*c17Node{g.node(d), g.node(d)}}
+				}
+			}
+			as := st.src(arg)
+			if g.r.Chance(50) {
+				as = "(" + as + ")"
+				g.feat("directive-arg:parenthesised")
+			}
+			s += st.pad() + sep + st.osp() + as
 		}
 		g.feat("directive")
 	}
@@ -385,4 +403,23 @@ func c17Mutate(r *hx.Rand, s string) string {
 // follow a right brace); those belong to C05, not here.
 func c17Unsafe(s string) bool {
 	return strings.Contains(s, "css") || strings.Contains(s, "literal") || strings.ContainsAny(s, "@}")
+}
+
+// flipCase flips the case of one ASCII letter of s (message-level oracle: sources that
+// differ only in letter case).
+func c17FlipCase(r *hx.Rand, s string) string {
+	var idx []int
+	for i := 0; i < len(s); i++ {
+		c := s[i]
+		if (c >= 'a' && c <= 'z') || (c >= 'A' && c <= 'Z') {
+			idx = append(idx, i)
+		}
+	}
+	if len(idx) == 0 {
+		return s
+	}
+	i := idx[r.Intn(len(idx))]
+	bs := []byte(s)
+	bs[i] ^= 0x20
+	return string(bs)
 }
